@@ -63,10 +63,12 @@ type Params struct {
 	// "fail-deadline" / "fail-canceled" (a transport error that looks like a context error while the request
 	// context is alive), "toolong-hang" (an oversized event on a body that stays open).
 	Special string
+	// Mul is Backoff.Multiplier (0: default).
+	Mul float64
 }
 
 func (p Params) Name() string {
-	return fmt.Sprintf("retries%d-reject%v-chunk%d-bodies%d..%d-canceller%v%s", p.MaxRetries, p.Reject, p.Chunk, p.Lo, p.Hi, p.Canceller, p.Special)
+	return fmt.Sprintf("retries%d-reject%v-chunk%d-bodies%d..%d-canceller%v%s-mul%v", p.MaxRetries, p.Reject, p.Chunk, p.Lo, p.Hi, p.Canceller, p.Special, p.Mul)
 }
 
 type world struct {
@@ -102,6 +104,9 @@ func body(p Params) func() {
 			case "fail-canceled":
 				w.Body, w.End = "(transport fails with a context.Canceled of its own)", "fail"
 				return ch.Outcome{Kind: "fail", Err: fmt.Errorf("proxy: %w", context.Canceled)}, true
+			case "fail-plain":
+				w.Body, w.End = "(every attempt is a transport failure)", "fail"
+				return ch.Outcome{Kind: "fail"}, true
 			case "toolong-hang":
 				w.Body, w.End = "(an event larger than the buffer limit, body stays open)", "toolong"
 				return ch.Outcome{Kind: "ok", Stream: "data: " + strings.Repeat("y", 100), Hang: true}, true
@@ -115,7 +120,7 @@ func body(p Params) func() {
 			}
 			return chosen, true
 		}}
-		cl := sse.Client{HTTPClient: &http.Client{Transport: w.T}, Backoff: sse.Backoff{MaxRetries: p.MaxRetries, Jitter: -1, InitialInterval: time.Millisecond},
+		cl := sse.Client{HTTPClient: &http.Client{Transport: w.T}, Backoff: sse.Backoff{MaxRetries: p.MaxRetries, Jitter: -1, InitialInterval: time.Millisecond, Multiplier: p.Mul},
 			ResponseValidator: func(*http.Response) error {
 				if p.Reject {
 					return errValidator
@@ -152,6 +157,18 @@ func check(p Params) func(r *vrt.Result) string {
 		if w.Err == nil {
 			return "Connect returned nil: " + desc
 		}
+		// a connection that was established and then ended resets the retry count: with MaxRetries > 0 such
+		// connections are retried for as long as the script lasts (the harness ends it by cancelling)
+		endless := p.MaxRetries > 0 && !p.Reject && !p.Canceller && w.End != "cancel" && (p.Special == "" || p.Special == "toolong-hang")
+		if endless {
+			if !w.T.Ended {
+				return fmt.Sprintf("Connect gave up after %d attempts with %v although every attempt connected successfully (a successful connection resets the retry count): %s", len(w.T.Attempts), w.Err, desc)
+			}
+			if !errors.Is(w.Err, context.Canceled) {
+				return fmt.Sprintf("the request context was cancelled but Connect returned %v: %s", w.Err, desc)
+			}
+			return ""
+		}
 		if w.T.Ctx.Cancelled() {
 			if !errors.Is(w.Err, context.Canceled) {
 				what := "was cancelled"
@@ -179,7 +196,7 @@ func check(p Params) func(r *vrt.Result) string {
 		if p.MaxRetries > 0 {
 			wantAttempts = 1 + p.MaxRetries
 		}
-		if p.Special == "fail-deadline" || p.Special == "fail-canceled" || p.Special == "toolong-hang" {
+		if p.Special == "fail-deadline" || p.Special == "fail-canceled" || p.Special == "fail-plain" || p.Special == "toolong-hang" {
 			if len(w.T.Attempts) != wantAttempts {
 				return fmt.Sprintf("%d attempts were made, want %d: the request context is alive, so the failure must be retried like any other: %s", len(w.T.Attempts), wantAttempts, desc)
 			}
@@ -309,11 +326,18 @@ func Scenarios(tier string) []run.Scenario {
 		}
 		add(Params{MaxRetries: 1, Chunk: 1, Bodies: small, Lo: lo, Hi: hi, Canceller: true, Ends: []string{"eof", "err"}})
 	}
-	for _, mr := range []int{-1, 2} {
-		add(Params{MaxRetries: mr, Reject: true, Special: "-reject-hang"[1:]})
-		add(Params{MaxRetries: mr, Special: "fail-deadline"})
-		add(Params{MaxRetries: mr, Special: "fail-canceled"})
-		add(Params{MaxRetries: mr, Special: "toolong-hang"})
+	for _, mr := range []int{-1, 1, 2} {
+		for _, mul := range []float64{0, 1} {
+			add(Params{MaxRetries: mr, Reject: true, Special: "reject-hang", Mul: mul})
+			add(Params{MaxRetries: mr, Special: "fail-deadline", Mul: mul})
+			add(Params{MaxRetries: mr, Special: "fail-canceled", Mul: mul})
+			add(Params{MaxRetries: mr, Special: "fail-plain", Mul: mul})
+			add(Params{MaxRetries: mr, Special: "toolong-hang", Mul: mul})
+		}
+	}
+	// a constant interval (Multiplier 1): successful connections still reset the retry count
+	for _, mr := range []int{1, 2} {
+		add(Params{MaxRetries: mr, Chunk: 0, Bodies: bodies, Lo: 0, Hi: 64, Ends: []string{"eof", "err"}, Mul: 1})
 	}
 	// sse.Read, same bodies, as one scenario without scheduling
 	out = append(out, run.Scenario{Name: "sse.Read-direct", Body: func() { vrt.SetUser(readCheck(bodies)) },
